@@ -17,6 +17,28 @@ pub enum Case {
     Io(crate::io::Case),
 }
 
+/// Rebuild every hash map the scenario carries under the calling thread's `RandomState` keys. The scenario
+/// was materialised on another thread; a cloned map keeps its hasher, so without this the simulated hash
+/// seed of a run would only reach maps created during the run.
+pub fn rehash(case: &mut Case) {
+    fn links(ls: &mut [altrios_core::track::Link]) {
+        for l in ls {
+            if !l.speed_sets.is_empty() {
+                l.speed_sets = l.speed_sets.drain().collect();
+            }
+        }
+    }
+    match case {
+        Case::Trk(c) => links(&mut c.links),
+        Case::Val(c) => links(&mut c.links),
+        Case::Trn(c) => links(&mut c.links),
+        Case::Dsp(c) => links(&mut c.links),
+        Case::Io(crate::io::Case::TrainSim { inner, .. }) => links(&mut inner.links),
+        Case::Thr(crate::thr::Case::HashRepeat { inner, .. }) => rehash(inner),
+        _ => {}
+    }
+}
+
 impl Case {
     pub fn hash_seed(&self) -> u64 {
         match self {
